@@ -195,7 +195,17 @@ int main(void)
 		}
 	}
 	if (ref_has_backup(IN.g) && !IN.master_only) {
+		int sb_k = -1, clobbered = 0;
 		PROP(found_sb, "the prescribed backup group received a superblock copy");
+		/* ... and keeps it: no later write of this flush (a descriptor copy, say) lands on the backup superblock's block */
+		for (k = 0; k < MAXLOG; k++)
+			if (k < vf_nlog && vf_lsrc[k] == -1 && vf_lcnt[k] == -SUPERBLOCK_SIZE && vf_lblk[k] == gfirst)
+				sb_k = k;
+		for (k = 0; k < MAXLOG; k++)
+			if (k < vf_nlog && k > sb_k && sb_k >= 0 && vf_lsrc[k] >= 0 && vf_lcnt[k] > 0 &&
+			    gfirst >= vf_lblk[k] && gfirst < vf_lblk[k] + (unsigned) vf_lcnt[k])
+				clobbered = 1;
+		PROP(!clobbered, "nothing written later in the flush overwrites the backup superblock");
 		if (!IN.super_only) {
 			loc = ext2fs_descriptor_block_loc2(&vf_fs, gfirst, IN.i);	/* where e2fsck -b <gfirst> reads block i */
 			for (k = 0; k < MAXLOG; k++) {
